@@ -116,3 +116,7 @@ func (r *Rand) Perm(n int) []int {
 	}
 	return p
 }
+
+// Pick64 returns one of the given values. (All arguments are evaluated by the caller first,
+// so the number of PRNG draws does not depend on which one is picked.)
+func (r *Rand) Pick64(xs ...uint64) uint64 { return xs[r.Intn(len(xs))] }
